@@ -131,8 +131,9 @@ def build_call(terms, ell, out, ones=(), spaces=False):
     return eq, shapes
 
 
-def to_interleaved(eq, arrays):
-    """string form -> interleaved args with int labels / Ellipsis objects"""
+def to_interleaved(eq, arrays, rev=False):
+    """string form -> interleaved args with int labels / Ellipsis objects; rev: the int labels are numbered
+    downwards, so that the order of first appearance differs from numpy's sorted-label order"""
     eq = eq.replace(" ", "")
     if "->" in eq:
         lhs, out = eq.split("->")
@@ -147,7 +148,7 @@ def to_interleaved(eq, arrays):
                 res.append(Ellipsis)
                 i += 3
             else:
-                res.append(ord(t[i]) - ord("a"))
+                res.append((40 - (ord(t[i]) - ord("a"))) if rev else (ord(t[i]) - ord("a")))
                 i += 1
         return res
 
@@ -166,6 +167,8 @@ def items(tier, seed):
     for i in range(0, len(cases), chunk):
         its.append({"kind": "einsum", "cases": [[list(map(list, t)), list(e), o] for t, e, o in cases[i : i + chunk]], "tier": tier, "k": i})
     its.append({"kind": "labels", "tier": tier, "k": 0})
+    for n in ((28, 54) if tier == "quick" else (27, 28, 40, 53, 54, 60)):
+        its.append({"kind": "manylabels", "n": n, "tier": tier, "k": n})
     return its
 
 
@@ -228,6 +231,8 @@ def run_item(item, rec):
     tier = item["tier"]
     if item["kind"] == "labels":
         return run_labels(item, rec)
+    if item["kind"] == "manylabels":
+        return run_manylabels(item, rec)
     for ci, (terms, ell, out) in enumerate(item["cases"]):
         terms = [tuple(t) for t in terms]
         variants = [((), False)]
@@ -249,11 +254,13 @@ def run_item(item, rec):
             forms = ["string"]
             if tier != "quick" or ci % 3 == 0:
                 forms.append("interleaved")
+            if tier != "quick" or ci % 3 == 1:
+                forms.append("interleaved-rev")
             for form in forms:
                 desc = dict(eq=eq, shapes=[list(s) for s in shapes], form=form)
 
                 def harness(ctx, form=form, desc=desc, fk=fk):
-                    args = [eq] + arrays if form == "string" else to_interleaved(eq, arrays)
+                    args = [eq] + arrays if form == "string" else to_interleaved(eq, arrays, rev=form.endswith("rev"))
                     one_call(rec, ctx, args, arrays, desc, fk)
 
                 rec.add_explore(symx.explore(harness, max_paths=2))
@@ -284,6 +291,69 @@ RELABELINGS = [
     lambda c: frozenset([c]),
     lambda c: c * 3,  # multi-char strings
 ]
+
+
+def many_chain(n, p, q):
+    """open chain of n tensors over int labels numbered in order of first appearance; tensors p and q (p < q) carry
+    one extra dangling index each; all inner bonds have size 1 except the middle one"""
+    inputs, size = [], {}
+    nxt = [0]
+
+    def new(sz):
+        size[nxt[0]] = sz
+        nxt[0] += 1
+        return nxt[0] - 1
+
+    left = new(2)
+    for k in range(n):
+        t = [left]
+        if k in (p, q):
+            t.append(new(2 if k == p else 3))
+        right = new(3 if k == n - 1 else (2 if k == n // 2 else 1))
+        t.append(right)
+        inputs.append(tuple(t))
+        left = right
+    flat = [c for t in inputs for c in t]
+    implicit = [c for c in dict.fromkeys(flat) if flat.count(c) == 1]
+    return inputs, size, implicit
+
+
+MANY_POS = [0, 11, 24, 25, 26, 39, 50, 51, 52, 53]
+
+
+def run_manylabels(item, rec):
+    """array_contract with MORE THAN 26 / 52 distinct labels and an implicit output: the documented output order
+    (once-appearing labels in order of first appearance) must hold across the internal symbol alphabet's boundaries"""
+    import cotengra as ctg
+
+    n = item["n"]
+    cand = [x for x in MANY_POS if x < n]
+
+    def harness(ctx):
+        i = symx.choose("p", len(cand) - 1)
+        j = i + 1 + symx.choose("q", len(cand) - 1 - i)
+        p, q = cand[i], cand[j]
+        explicit = bool(symx.choose("explicit_output", 2))
+        inputs, size, implicit = many_chain(n, p, q)
+        chars = {c: chr(0x100 + c) for c in size}
+        sin = tuple("".join(chars[c] for c in t) for t in inputs)
+        ssize = {chars[c]: d for c, d in size.items()}
+        arrays = symarr.sym_arrays(sin, ssize)
+        ref = symarr.dense_einsum(sin, "".join(chars[c] for c in implicit), ssize, arrays)
+        desc = dict(form="manylabels", n=n, p=p, q=q, explicit=explicit, shapes=[list(a.shape) for a in arrays], eq=f"chain{n}[{p},{q}]")
+        try:
+            got = ctg.array_contract(arrays, inputs, tuple(implicit) if explicit else None)
+        except Exception as e:  # noqa
+            rec.concrete_violation("array_contract raised", dict(case=dict(desc=desc), error=repr(e)[:200], signature=["C12", "manylabels", n, p, q, explicit, "raise"]))
+            return
+        got = symarr.as_obj_array(got)
+        bad = True if got.shape != ref.shape else symarr.diff_formula(got, ref)
+        rec.refute(ctx, bad, "array_contract (many labels, implicit output order) == einsum",
+                   lambda m: dict(case=dict(desc=desc), arrays=[a.tolist() for a in symarr.model_arrays(m, arrays)], signature=["C12", "manylabels", n, p, q, explicit]))
+
+    rec.add_explore(symx.explore(harness, max_paths=400, deadline_s=(60 if item["tier"] == "quick" else 400)))
+    rec.sample(dict(form="array_contract, int labels, chain of %d tensors with two solver-placed dangling indices" % n, labels=n + 3))
+    rec.validated += 1
 
 
 def run_labels(item, rec):
@@ -377,8 +447,17 @@ def replay(v):
     tries.append([rng.uniform(0.5, 1.5, size=s) for s in shapes])
     form = desc["form"]
     for arrays in tries:
-        if form in ("string", "interleaved"):
-            args = [desc["eq"]] + arrays if form == "string" else to_interleaved(desc["eq"], arrays)
+        if form == "manylabels":
+            inputs, size, implicit = many_chain(desc["n"], desc["p"], desc["q"])
+            chars = {c: chr(0x100 + c) for c in size}
+            sin = tuple("".join(chars[c] for c in t) for t in inputs)
+            want = symarr.np_reference(sin, "".join(chars[c] for c in implicit), {chars[c]: d for c, d in size.items()}, arrays)
+            try:
+                got = ctg.array_contract(arrays, inputs, tuple(implicit) if desc["explicit"] else None)
+            except Exception as e:  # noqa
+                return True, f"raised {e!r}"
+        elif form in ("string", "interleaved", "interleaved-rev"):
+            args = [desc["eq"]] + arrays if form == "string" else to_interleaved(desc["eq"], arrays, rev=form.endswith("rev"))
             want = np.einsum(*args)
             try:
                 got = ctg.einsum(*args)
